@@ -25,10 +25,13 @@ Definition close0 (y : Q) : bool := Qle_bool (Qabs y) (1 # 100000000).       (* 
 Definition roll_r {A} (d : A) (l : list A) : list A := match l with [] => [] | _ => last l d :: removelast l end.   (* np.roll(l, 1) *)
 Definition roll_l {A} (l : list A) : list A := match l with [] => [] | a :: t => t ++ [a] end.                     (* np.roll(l, -1) *)
 
-(* strip boundary: drop the vertices whose two (cyclic) neighbours both lie on the face *)
-Definition strip (pts : list (Q * Q)) : list (Q * Q) :=
+(* strip boundary: drop the vertices that lie on the face and whose two (cyclic) neighbours both lie on the face *)
+Definition strip_with (own : bool) (pts : list (Q * Q)) : list (Q * Q) :=
   let ys := map snd pts in
-  map fst (filter (fun t => negb (close0 (fst (snd t)) && close0 (snd (snd t)))) (combine pts (combine (roll_r 0 ys) (roll_l ys)))).
+  map fst (filter (fun t => negb ((if own then close0 (snd (fst t)) else true) && close0 (fst (snd t)) && close0 (snd (snd t))))
+                  (combine pts (combine (roll_r 0 ys) (roll_l ys)))).
+Definition strip := strip_with true.
+Definition strip_pinned := strip_with false.      (* before the repair: the vertex's own height was not looked at *)
 
 Definition Qminl (d : Q) (l : list Q) : Q := fold_left Qmin l d.
 Definition Qmaxl (d : Q) (l : list Q) : Q := fold_left Qmax l d.
@@ -47,7 +50,7 @@ Definition spline_init (pts : list (Q * Q)) (usable_width : option Q) : option s
       if negb (close0 (snd p0)) || negb (close0 (snd (last pts p0))) then None      (* ValueError *)
       else
         let s := strip pts in
-        if Nat.ltb (length s) 4 then None else      (* shapely: a linear ring requires at least 4 coordinates (ValueError) *)
+        if Nat.ltb (length s) 3 then None else      (* shapely: a linear ring requires at least 4 coordinates, the closing one included (ValueError) *)
         let st := map (shift (centre s)) s in
         let half := fst (last st (0, 0)) in
         Some {| sp_points := st; sp_width := half * 2;
